@@ -62,6 +62,10 @@ func (q *vQry) execute(ctx context.Context, conn *Conn) *Iter {
 		err = ErrConnectionClosed
 	}
 	q.outcomes = append(q.outcomes, err)
+	if err != nil && vBool("connection_lost_during_attempt") {
+		// the connection the attempt ran on may be gone by the time the attempt returns
+		conn.closed = true
+	}
 	return &Iter{err: err}
 }
 func (q *vQry) attempt(keyspace string, end, start time.Time, iter *Iter, host *HostInfo) {
